@@ -1061,6 +1061,7 @@ func (c *conn) reader(wg *sync.WaitGroup) {
 		c.nap(time.Duration(cfg.ReadStartMS) * time.Millisecond)
 	}
 	total := 0
+	polled := false
 	for {
 		select {
 		case <-c.done:
@@ -1069,13 +1070,27 @@ func (c *conn) reader(wg *sync.WaitGroup) {
 		}
 		v, _, err := ep.Read(nil)
 		if err == tcpip.ErrWouldBlock {
+			// sleep on the readiness notification; the 2 s poll is a rescue, and a rescue that finds something to read for
+			// which no notification arrives within 300 ms is logged (see tcpd)
+			polled = false
 			select {
 			case <-ch:
-			case <-time.After(50 * time.Millisecond):
+			case <-time.After(2 * time.Second):
+				polled = true
 			case <-c.done:
 				return
 			}
 			continue
+		}
+		if polled {
+			polled = false
+			select {
+			case <-ch:
+			case <-time.After(300 * time.Millisecond):
+				c.log.add(M{"ev": "missedwake", "e": "a", "what": "readable", "at": total})
+			case <-c.done:
+				return
+			}
 		}
 		if err != nil {
 			if err == tcpip.ErrClosedForReceive {
